@@ -94,12 +94,28 @@ def apply_observers(object, graphs, handler, *, dispatcher, remove=False):
         If True, remove notifiers. i.e. unobserve the traits. The default
         is False.
     """
-    for graph in graphs:
-        add_or_remove_notifiers(
-            object=object,
-            graph=graph,
-            handler=handler,
-            target=object,
-            dispatcher=dispatcher,
-            remove=remove,
-        )
+    applied = []
+    try:
+        for graph in graphs:
+            add_or_remove_notifiers(
+                object=object,
+                graph=graph,
+                handler=handler,
+                target=object,
+                dispatcher=dispatcher,
+                remove=remove,
+            )
+            applied.append(graph)
+    except Exception:
+        # Undo what was done for the preceding graphs, so that a failing
+        # call leaves nothing half (un)registered, and then reraise.
+        for graph in reversed(applied):
+            add_or_remove_notifiers(
+                object=object,
+                graph=graph,
+                handler=handler,
+                target=object,
+                dispatcher=dispatcher,
+                remove=not remove,
+            )
+        raise
